@@ -25,8 +25,13 @@
     Nothing else can change (`nonvacuous_frame_idx` shows the pad case occurs).
   `…_frame_diverge` are the same laws without `Fits`, for paths that part at two different keys
   or two different indices (`DivergeIdx`).  The older key-only versions are kept as `…_frame_partial`.
+  `env_frame` / `env_frame_diverge` are the same laws for EnvOp (one write per selected variable, all
+  below `<path>.Env`; `path` itself may carry index groups); `env_exact` keeps its key-only frame clause.
 -/
 import YtkProofs.PipelineFrame
+import YtkProofs.EnvFrame
+import YtkProofs.PipelineDataWF
+import YtkProofs.MergeRel
 
 namespace Ytk.C13
 open Ytk.PD
@@ -403,6 +408,48 @@ theorem env_exact (incl excl : String → Bool) (path : String) (hp : path = "" 
         lookup d' q = lookup data q) :=
   envOp_spec incl excl path hp env data hok hd
 
+/-- EnvOp, frame at full strength.  For an environment of well-formed names EnvOp succeeds, and if the
+    target `<path>.Env.<name>` of every selected variable fits the document (`path` may itself carry
+    list-item components), then every path `q` — list-item components included — that is not under any
+    of these targets and not on the way to one (step sequences not prefix-related) finds the same node as
+    before; the only exception are slots freshly created by padding a list up to a written index: absent
+    before, `null` afterwards.  (`Fits` is asked of the ORIGINAL document only: one EnvOp write keeps it
+    for the sibling targets, `fits_envKey_step`.) -/
+theorem env_frame (incl excl : String → Bool) (path : String) (env : List (String × String)) (data : AMap Node)
+    (hok : ∀ p ∈ env, NameOk p.1)
+    (hf : ∀ p ∈ env, sel incl excl p.1 = true → Fits data (splitPath (envKey path p.1)))
+    (q : String)
+    (hq : ∀ p ∈ env, sel incl excl p.1 = true →
+      ¬ pathSteps (splitPath (envKey path p.1)) <+: pathSteps (splitPath q) ∧
+      ¬ pathSteps (splitPath q) <+: pathSteps (splitPath (envKey path p.1))) :
+    ∃ d', envOp incl excl path (envEntries env) data = .ok d' ∧
+      (lookup d' q = lookup data q ∨ (lookup data q = none ∧ lookup d' q = some Node.null)) := by
+  obtain ⟨d', hd⟩ := envOp_ok incl excl path env data hok
+  exact ⟨d', hd, envOp_frame incl excl path q env data d' hok hf hq hd⟩
+
+/-- the same without `Fits`, when every selected target and `q` part at two different keys or two
+    different indices (after a common prefix of components) -/
+theorem env_frame_diverge (incl excl : String → Bool) (path : String) (env : List (String × String))
+    (data : AMap Node) (hok : ∀ p ∈ env, NameOk p.1) (q : String)
+    (hq : ∀ p ∈ env, sel incl excl p.1 = true → DivergeIdx (splitPath (envKey path p.1)) (splitPath q)) :
+    ∃ d', envOp incl excl path (envEntries env) data = .ok d' ∧
+      (lookup d' q = lookup data q ∨ (lookup data q = none ∧ lookup d' q = some Node.null)) := by
+  obtain ⟨d', hd⟩ := envOp_ok incl excl path env data hok
+  exact ⟨d', hd, envOp_frame_diverge incl excl path q env data d' hok hq hd⟩
+
+/-- in particular: whatever was found at such a path before EnvOp is still found there -/
+theorem env_frame_keeps (incl excl : String → Bool) (path : String) (env : List (String × String)) (data : AMap Node)
+    (hok : ∀ p ∈ env, NameOk p.1)
+    (hf : ∀ p ∈ env, sel incl excl p.1 = true → Fits data (splitPath (envKey path p.1)))
+    (q : String)
+    (hq : ∀ p ∈ env, sel incl excl p.1 = true →
+      ¬ pathSteps (splitPath (envKey path p.1)) <+: pathSteps (splitPath q) ∧
+      ¬ pathSteps (splitPath q) <+: pathSteps (splitPath (envKey path p.1)))
+    (n : Node) (hn : lookup data q = some n) :
+    ∃ d', envOp incl excl path (envEntries env) data = .ok d' ∧ lookup d' q = some n := by
+  obtain ⟨d', hd, h⟩ := env_frame incl excl path env data hok hf q hq
+  exact ⟨d', hd, FrameAt.of_some h hn⟩
+
 /-- `sel` is "matches include and not exclude"; `envKey` is `<path>.Env.<name>` -/
 theorem env_sel_key (incl excl : String → Bool) (path n : String) :
     (sel incl excl n = true ↔ incl n = true ∧ excl n = false) ∧
@@ -415,6 +462,47 @@ theorem env_no_equals_panics (incl excl : String → Bool) (path e : String) (re
     (data : AMap Node) (h : splitEnv e.toList = none) (hs : (incl e && !excl e) = true) :
     envOp incl excl path (e :: rest) data = .panic := by
   simp [envOp, h, hs]
+
+/-! ## every data operation keeps the document a tree of maps
+
+  `Node.WF (.cont d)`: every container of the document, at every depth, has strictly sorted — hence
+  unique — keys.  It is preserved by every data operation, whatever the outcome, provided what comes in
+  from outside is well formed as well: the payload of SetOp (a Go map), the result of dom's Merge
+  (`MergeWF`; holds for the modelled dom merge with either list strategy and for the local copy), the
+  containers the file decoders return (`CodecsWF`), the document patch.Do returns.  (C14 `run_wf` is the
+  same invariant for the interpreter.) -/
+
+theorem set_wf (hm : MergeWF mergeC) (data payload d' : AMap Node) (path : String) (s : Option String)
+    (h : Node.WF (.cont data)) (hp : Node.WF (.cont payload))
+    (hd : setOp mergeC data (some payload) path s = .ok d') : Node.WF (.cont d') :=
+  wf_setOp hm h hp hd
+
+/-- dom's Merge — the model of C04 with either list strategy, and the local copy the driver uses — keeps
+    well-formedness -/
+theorem merge_wf : (∀ o, MergeWF (Ytk.mergeC o)) ∧ MergeWF mergeContainers :=
+  ⟨fun o _ _ ha hb => Ytk.wf_mergeC o ha hb, fun _ _ ha hb => wf_mergeContainers ha hb⟩
+
+/-- TemplateOp, both parse modes (`decodeYamlNode` builds maps with AddValue) -/
+theorem template_wf (render : String → Option String) (lenient trimFn : String → String)
+    (yp : String → Option (Option YNode)) (t : TemplateSpec) (data : AMap Node) (h : Node.WF (.cont data)) :
+    Node.WF (.cont (templateOp render lenient trimFn yp t data).1) :=
+  wf_templateOp render lenient trimFn yp t h
+
+theorem import_wf (cd : Codecs) (hc : CodecsWF cd) (lenient : String → String) (content : Option (List Nat))
+    (mode path : String) (data : AMap Node) (h : Node.WF (.cont data)) :
+    Node.WF (.cont (importOp cd lenient content mode path data).1) :=
+  wf_importOp hc lenient content mode path h
+
+theorem env_wf (incl excl : String → Bool) (path : String) (es : List String) (data d' : AMap Node)
+    (h : Node.WF (.cont data)) (hd : envOp incl excl path es data = .ok d') : Node.WF (.cont d') :=
+  wf_envOp incl excl path es data d' h hd
+
+theorem patch_wf {P : Type} (parsePath : String → Option P) (lenient : String → String)
+    (patchDo : PatchCall P → AMap Node → AMap Node × Bool)
+    (hpd : ∀ c d, Node.WF (.cont d) → Node.WF (.cont (patchDo c d).1))
+    (ps : PatchSpec) (data : AMap Node) (h : Node.WF (.cont data)) :
+    Node.WF (.cont (patchOp parsePath lenient patchDo ps data).1) :=
+  wf_patchOp parsePath lenient patchDo hpd ps h
 
 /-! ## ExportOp -/
 
@@ -611,6 +699,30 @@ theorem nonvacuous_env :
     NameOk "A" ∧ PathOk "p" := by
   refine ⟨by decide +kernel, ⟨by decide, by decide, by decide⟩, ⟨by decide, ?_⟩⟩
   intro s hs; revert s hs; decide
+
+/-- `env_frame` with a list-item target: `<path> = a.l[2]` in a document whose list `a.l` has one item;
+    two variables are selected (A, C — the second write happens in the document the first one left),
+    the hypotheses hold for `q = a.l[1]` and `q = a.l[0].z`-like paths; the first write pads: `a.l[1]`
+    was absent and is `null` afterwards, `a.l[0]` and `k` keep their values. -/
+theorem nonvacuous_env_frame :
+    let incl : String → Bool := fun n => n == "A" || n == "B" || n == "C"
+    let excl : String → Bool := fun n => n == "B"
+    (∀ p ∈ [("A", "1"), ("B", "2"), ("C", "3")], NameOk p.1) ∧
+    Fits exList (splitPath (envKey "a.l[2]" "A")) ∧ Fits exList (splitPath (envKey "a.l[2]" "C")) ∧
+    (¬ pathSteps (splitPath (envKey "a.l[2]" "A")) <+: pathSteps (splitPath "a.l[1]") ∧
+     ¬ pathSteps (splitPath "a.l[1]") <+: pathSteps (splitPath (envKey "a.l[2]" "A"))) ∧
+    (¬ pathSteps (splitPath (envKey "a.l[2]" "C")) <+: pathSteps (splitPath "a.l[1]") ∧
+     ¬ pathSteps (splitPath "a.l[1]") <+: pathSteps (splitPath (envKey "a.l[2]" "C"))) ∧
+    (∃ d', envOp incl excl "a.l[2]" (envEntries [("A", "1"), ("B", "2"), ("C", "3")]) exList = .ok d' ∧
+      lookup d' "a.l[2].Env" = some (.cont [("A", .leaf ⟨"string", "1"⟩), ("C", .leaf ⟨"string", "3"⟩)]) ∧
+      lookup exList "a.l[1]" = none ∧ lookup d' "a.l[1]" = some Node.null ∧
+      lookup d' "a.l[0]" = some (.leaf ⟨"int", "1"⟩) ∧ lookup d' "k" = lookup exList "k") := by
+  refine ⟨?_, fitsB_sound _ _ (by decide +kernel), fitsB_sound _ _ (by decide +kernel),
+    ⟨by decide +kernel, by decide +kernel⟩, ⟨by decide +kernel, by decide +kernel⟩,
+    ⟨_, rfl, by decide +kernel, by decide +kernel, by decide +kernel, by decide +kernel, by decide +kernel⟩⟩
+  intro p hp
+  simp only [List.mem_cons, List.mem_nil_iff, or_false] at hp
+  rcases hp with rfl | rfl | rfl <;> exact ⟨by decide, by decide, by decide⟩
 
 theorem nonvacuous_lenient : possiblyTemplate "x {{ .a }}" = true ∧ possiblyTemplate "{{ open" = false ∧
     possiblyTemplate "}} {{" = false ∧ indexOf2 '{' '{' "a { b } c".toList = none := by decide
